@@ -21,7 +21,7 @@ func c10Defs() map[string]TableDef {
 	return map[string]TableDef{
 		"ta": {Name: "ta", Cols: []ColDef{{"a", TInt}}},
 		"tb": {Name: "tb", Cols: []ColDef{{"b", TInt}, {"s", TStr}}},
-		"tc": {Name: "tc", Cols: []ColDef{{"f", TFloat}, {"c", TInt}, {"u", TStr}}},
+		"Tc": {Name: "Tc", Cols: []ColDef{{"f", TFloat}, {"c", TInt}, {"u", TStr}}},
 	}
 }
 
@@ -48,8 +48,8 @@ func c10Stmts() []*Stmt {
 		ins("tb", []string{"b", "s"}, int32(10), "ten"),
 		ins("tb", []string{"b", "s"}, int32(11), c09Long),
 		{Kind: "update", Table: "tb", Set: []SetItem{{"s", "TEN"}}, Where: Leaf{"b", "=", int32(10)}},
-		ins("tc", []string{"f", "c", "u"}, float32(0.5), int32(7), "seven"),
-		{Kind: "delete", Table: "tc", Where: Leaf{"c", "=", int32(7)}},
+		ins("Tc", []string{"f", "c", "u"}, float32(0.5), int32(7), "seven"),
+		{Kind: "delete", Table: "Tc", Where: Leaf{"c", "=", int32(7)}},
 	}
 }
 
@@ -63,7 +63,7 @@ type c10Params struct {
 
 func c10Base(p c10Params) *WorldCfg {
 	cfg := &WorldCfg{Prop: "C10", Driver: "c10", MemKB: p.MemKB, Defs: c10Defs(), Stmts: c10Stmts()}
-	order := []string{"ta", "tb", "tc"}
+	order := []string{"ta", "tb", "Tc"}
 	nSeedTables := 0
 	if p.Seed == "catalog-spill" {
 		long := "a_column_with_a_rather_long_name_"
@@ -150,7 +150,9 @@ func c10Check(w *World, op string) *core.Violation {
 		for i, c := range td.Cols {
 			col := sc.GetColumn(uint32(i))
 			wantT := map[ColType]types.TypeID{TInt: types.Integer, TFloat: types.Float, TStr: types.Varchar}[c.Type]
-			if col.GetColumnName() != name+"."+c.Name || col.GetType() != wantT {
+			// (the catalog keeps table names in lower case by design: the table prefix of a column name is
+			// compared case-insensitively)
+			if !strings.EqualFold(col.GetColumnName(), name+"."+c.Name) || col.GetType() != wantT {
 				return w.viol(kind+"/schema-changed", op, fmt.Sprintf("table %s column %d is %s/%v, created as %s/%v", name, i, col.GetColumnName(), col.GetType(), c.Name, wantT))
 			}
 		}
@@ -168,7 +170,13 @@ func c10Check(w *World, op string) *core.Violation {
 	var extra []string
 	for _, tm := range cat.GetAllTables() {
 		n := *tm.GetTableName()
-		if n != "columns_catalog" && !w.HasTable(n) {
+		known := false
+		for _, o := range w.model.Order {
+			if strings.EqualFold(o, n) {
+				known = true
+			}
+		}
+		if n != "columns_catalog" && !known {
 			extra = append(extra, n)
 		}
 	}
